@@ -57,6 +57,8 @@ type loopInfo struct {
 	lc      *LoopContract
 	decName string
 	env     map[string]Val // names bound at header
+	frameOnly map[string]bool
+	hasFrame  bool
 }
 
 type deferRec struct {
@@ -96,7 +98,7 @@ type Tr struct {
 	paramEnv  map[string]Val
 	debugVals map[string][]ssa.Value // source var name -> values (from DebugRef)
 	retCount  int
-	cellSaved []string
+	ptrArgs   map[string]ssa.Value // callMods: callee parameter name -> argument value
 	preOnly   bool // applyContract: check the preconditions only (go statements)
 	locals    []*ssa.Alloc
 	genCount  int
